@@ -392,3 +392,153 @@ def tiling_walk(prog, chk, rule, key, content_id, start, label):
     bad = [d for ok, d in checks if not ok]
     chk.ob(rule, "%s: every attribute is decoded where the previous one's padded extent ended, the first at %s" % (label, start), bool(checks) and not bad, body.loc(),
            detail="; ".join(bad[:2]), how="E2 with two ghosts kept across the loop (inductive), %d decode call contexts" % len(checks))
+
+
+# ------------------------------------------------------------------------------------------------ the 20-byte header
+
+HDR_FROM_BYTES = "stun_types::message::MessageHeader::from_bytes"
+COOKIE_BYTES = (0x21, 0x12, 0xA4, 0x42)
+
+
+def header_semantics(prog, chk, rule="header-acceptance", exposure_rule="faithful-exposure"):
+    """MessageHeader::from_bytes decided over the bytes of its input (numbers read from the buffer are defined over byte
+    variables; shifts, masks and comparisons are evaluated exactly on those): Ok iff at least 20 bytes, the top two bits of
+    byte 0 clear and bytes 4..8 = 21 12 A4 42; the fields returned are the type word (bytes 0..2), the length (bytes 2..4)
+    and the transaction id (bytes 8..20)."""
+    body = prog.bodies.get(HDR_FROM_BYTES)
+    if body is None:
+        chk.fail(rule, "MessageHeader::from_bytes not found")
+        return
+    r = Run(prog, HDR_FROM_BYTES, track_content=True, bool_vars=False, path_sensitive=True, byte_defs=True, max_parts=2000)
+    if r.error or not r.results:
+        chk.fail(rule, "analysis", detail=r.error or "no return state")
+        return
+    b = lambda k: Lin.var("rd8@in:data+%d" % k)
+    n_ok = 0
+    kinds = set()
+    for st, ret in r.results:
+        res = variant_of(prog, ret)
+        d = st.cells.get(r.it.cell_of(r.fr, 1))
+        L = d.len if isinstance(d, Seq) else None
+        sy = st.sys.copy()
+        for k in range(8):
+            sy.add_range(b(k), 0, 255)
+        problems = []
+        if res == "Ok":
+            n_ok += 1
+            kinds.add("Ok")
+            if L is None or not sy.entails_ge(L - 20):
+                problems.append("Ok with fewer than 20 bytes possible")
+            if not sy.entails_ge(Lin.const(63) - b(0)):
+                problems.append("Ok although the top two bits of the first byte may be set")
+            for k, cv in enumerate(COOKIE_BYTES):
+                if not sy.entails_eq(b(4 + k) - cv):
+                    problems.append("Ok although byte %d is not shown to be 0x%02X" % (4 + k, cv))
+            hdr = ret.v[0].get(0)
+            names = [f["name"] for f in prog.adts["stun_types::message::MessageHeader"]["variants"][0]["fields"]]
+            def fld(nm):
+                v = hdr.get(names.index(nm)) if isinstance(hdr, Struct) else None
+                n_ = 0
+                while isinstance(v, Struct) and len(v.f) == 1 and n_ < 3:
+                    v = v.get(next(iter(v.f)))
+                    n_ += 1
+                return v
+            mt, ln, tid = fld("mtype"), fld("length"), fld("transaction_id")
+            if not (isinstance(mt, Num) and sy.entails_eq(mt.e - b(0).scale(256) - b(1))):
+                chk.ob(exposure_rule, "header.mtype is the big-endian word in bytes 0..2", False, body.loc(), detail=repr(mt))
+            else:
+                chk.ob(exposure_rule, "header.mtype is the big-endian word in bytes 0..2", True, body.loc(), how="E2 over byte variables")
+            okl = isinstance(ln, Num) and sy.entails_eq(ln.e - b(2).scale(256) - b(3))
+            chk.ob(exposure_rule, "header.length is the big-endian word in bytes 2..4", okl, body.loc(), detail=repr(ln), how="E2 over byte variables")
+            okt = isinstance(tid, Num) and (sy.entails_eq(tid.e - Lin.var("rd96@in:data+8")) or _tid_bytes(sy, tid.e))
+            chk.ob(exposure_rule, "header.transaction_id is the 96-bit number in bytes 8..20", okt, body.loc(), detail="%r" % (tid,), how="E2 over byte variables")
+        else:
+            e = ret.v[1].get(0) if isinstance(ret, Enum) and 1 in ret.v else None
+            en = variant_of(prog, e)
+            kinds.add(en)
+            if en == "Truncated":
+                ex, ac = e.v[next(iter(e.v))].get(0), e.v[next(iter(e.v))].get(1)
+                if not (L is not None and sy.entails_ge(Lin.const(19) - L) and isinstance(ex, Num) and sy.entails_eq(ex.e - 20) and isinstance(ac, Num) and sy.entails_eq(ac.e - L)):
+                    # the type decoder's own Truncated{2, len} can only occur below 2 bytes, which is below 20
+                    problems.append("Truncated is not {expected: 20, actual: len} with len < 20")
+            elif en == "NotStun":
+                s2 = sy.copy()
+                s2.add_ge(Lin.const(63) - b(0))
+                for k, cv in enumerate(COOKIE_BYTES):
+                    s2.add_eq(b(4 + k) - cv)
+                if L is not None:
+                    s2.add_ge(L - 20)
+                if not s2.bottom and s2.feasible():
+                    problems.append("NotStun is possible for a buffer with clear top bits and the magic cookie")
+            else:
+                problems.append("unexpected refusal %s" % en)
+        chk.ob(rule, "MessageHeader::from_bytes|%s" % (res if res == "Ok" else en), not problems, body.loc(), detail="; ".join(problems), how="E2 return state over byte variables")
+    chk.floor(rule + "-ok-states", n_ok, 1)
+    chk.ob(rule, "outcomes are Ok | NotStun | Truncated", kinds <= {"Ok", "NotStun", "Truncated"} and {"Ok", "NotStun", "Truncated"} <= kinds, body.loc(), detail=repr(kinds))
+
+
+def _tid_bytes(sy, e):
+    acc = Lin.const(0)
+    for k in range(12):
+        acc = acc + Lin.var("rd8@in:data+%d" % (8 + k)).scale(1 << (8 * (11 - k)))
+    return sy.entails_eq(e - acc)
+
+
+def getter_semantics(prog, chk, rule="faithful-exposure"):
+    """Message::transaction_id / get_type read the same bytes the header decoder validated"""
+    MSGNS = "stun_types::message::Message::<'a>::"
+    for fn, what in (("transaction_id", "tid"), ("get_type", "type")):
+        key = MSGNS + fn
+        body = prog.bodies.get(key)
+        if body is None:
+            chk.fail(rule, "Message::%s not found" % fn)
+            continue
+        r = Run(prog, key, track_content=True, bool_vars=False, path_sensitive=False, byte_defs=True)
+        if r.error or not r.results:
+            chk.fail(rule, "Message::%s|analysis" % fn, body.loc(), r.error or "no return state")
+            continue
+        for st, ret in r.results:
+            v = ret
+            n_ = 0
+            while isinstance(v, Struct) and len(v.f) == 1 and n_ < 3:
+                v = v.get(next(iter(v.f)))
+                n_ += 1
+            sy = st.sys.copy()
+            bvar = lambda k: Lin.var("rd8@in:self_data+%d" % k)
+            for k in range(20):
+                sy.add_range(bvar(k), 0, 255)
+            if what == "tid":
+                acc = Lin.const(0)
+                for k in range(12):
+                    acc = acc + bvar(8 + k).scale(1 << (8 * (11 - k)))
+                ok = isinstance(v, Num) and (sy.entails_eq(v.e - Lin.var("rd96@in:self_data+8")) or sy.entails_eq(v.e - acc))
+                chk.ob(rule, "Message::transaction_id is the 96-bit number in bytes 8..20 of the message", ok, body.loc(), detail=repr(v), how="E2 over byte variables")
+            else:
+                ok = isinstance(v, Num) and sy.entails_eq(v.e - bvar(0).scale(256) - bvar(1))
+                chk.ob(rule, "Message::get_type is the big-endian word in bytes 0..2 of the message", ok, body.loc(), detail=repr(v), how="E2 over byte variables")
+
+
+def type_decoder_refusals(prog):
+    """MessageType::from_bytes refuses only a buffer shorter than 2 bytes or one whose first byte has one of its top two bits
+    set (so it accepts the first two bytes of anything the header decoder accepted); -> (ok, detail)"""
+    key = "stun_types::message::MessageType::from_bytes"
+    if key not in prog.bodies:
+        return False, "MessageType::from_bytes not found"
+    r = Run(prog, key, track_content=True, bool_vars=False, path_sensitive=True, byte_defs=True)
+    if r.error or not r.results:
+        return False, r.error or "no return state"
+    b0 = Lin.var("rd8@in:data+0")
+    n_err = 0
+    for st, ret in r.results:
+        if variant_of(prog, ret) == "Ok":
+            continue
+        n_err += 1
+        d = st.cells.get(r.it.cell_of(r.fr, 1))
+        L = d.len if isinstance(d, Seq) else None
+        s2 = st.sys.copy()
+        s2.add_range(b0, 0, 63)
+        if L is not None:
+            s2.add_ge(L - 2)
+        if not s2.bottom and s2.feasible():
+            return False, "a buffer of at least two bytes whose first byte is below 64 can be refused"
+    return n_err >= 1, "every refusal entails len < 2 or first byte >= 64 (%d refusing states)" % n_err
